@@ -4,11 +4,13 @@ import S3V.Gen.Bindings
 import S3V.Spec.Service
 import S3V.Model.HttpDe
 import S3V.Model.SigV4Base
+import S3V.Model.PostForm
 /-!
 Driver for the end-to-end components through `S3Service::call`:
 
 * `svcroute` (C01): `svcroute id cfg method target headers body intended pk qpairs hnames | status code calls`
-* `svcinput` (C02): `svcinput id cfg method target headers body op sent | status code calls fields`
+* `svcinput` (C02): `svcinput id cfg method target headers body op sent [form] | status code calls fields`
+  (`form`: the fields of a POST-object form as sent, for the form-decoder model `S3V.PostForm`, C10)
 
 Model = the translated tables interpreted by `S3V.Route.resolve` / `implInputs`; spec = the Smithy side
 (`smithySpec`, member names) — the harness built the request from the Smithy table.
@@ -141,7 +143,63 @@ def helperModelVerdict (op : Op) (headersField target : String) : Option (Except
     | none => none
   some ((decodeAll r binds).map fun _ => ())
 
-def judgeInput (id : String) (fs : List String) (outs : List String) : String :=
+
+/-! ### POST-object forms (C10, `S3V.PostForm`): the generated form decoder's table interpreted by the model -/
+
+/-- `{:?}` of a `String`, for the bytes the generator uses in form values (printable ASCII, TAB, CR, LF); `none` = not compared -/
+def rustStrDebug (b : Bytes) : Option String :=
+  if b.all (fun c => (32 ≤ c && c ≤ 126) || c == 9 || c == 10 || c == 13) then
+    let esc : UInt8 → String := fun c =>
+      if c == 34 then "\\\"" else if c == 92 then "\\\\" else if c == 9 then "\\t" else if c == 10 then "\\n"
+      else if c == 13 then "\\r" else String.singleton (Char.ofNat c.toNat)
+    some ("\"" ++ String.join (b.map esc) ++ "\"")
+  else none
+
+def insertSorted (x : String) : List String → List String
+  | [] => [x]
+  | y :: ys => if x < y then x :: y :: ys else y :: insertSorted x ys
+
+/-- canonical `{:?}` of a string map as the harness prints it (entries sorted as text) -/
+def rustMapDebug (kvs : List (Bytes × Bytes)) : Option String :=
+  let items := kvs.map fun kv => match rustStrDebug kv.1, rustStrDebug kv.2 with
+    | some k, some v => some (k ++ ": " ++ v)
+    | _, _ => none
+  if items.any Option.isNone then none
+  else some ("{" ++ ", ".intercalate ((items.filterMap id).foldr insertSorted []) ++ "}")
+
+open S3V.PostForm in
+/-- what the model of `deserialize_http_multipart` predicts for the recorded typed members; `none` = no prediction
+    (a typed scalar whose parser is outside the model, a value outside the compared alphabet, the stream) -/
+def formPredicted (v : Val) (recorded : String) : Option String :=
+  match v with
+  | .absent => some "None"
+  | .text t => if recorded.startsWith "\"" then rustStrDebug t else none
+  | .entries m => rustMapDebug m
+  | .file => none
+  | .len n => some (toString n)
+
+open S3V.PostForm S3V.Multipart in
+def formModelBad (form : String) (bucketFrag : String) (fileLen : Nat) (fields : List (String × String)) : List String :=
+  let raw : List (Bytes × Bytes) := (decodeList form).filterMap fun e =>
+    let (n, v) := splitFirst e '='
+    match hexDecode n, hexDecode v with
+    | some n, some v => some (n, v)
+    | _, _ => none
+  let bucket : Bytes := (String.ofList ((bucketFrag.toList.drop 1).dropLast)).toUTF8.toList
+  match decodeForm bucket (finishFields raw) fileLen with
+  | .error e => [s!"form model refuses: {repr e}"]
+  | .ok vals => vals.filterMap fun (m, v) =>
+    let name := bytesToString m
+    match fields.find? (fun f => f.1 == name) with
+    | none => some s!"{name}: no such field"
+    | some f =>
+      match formPredicted v f.2 with
+      | none => none
+      | some p => if p == f.2 || (p == "None" && f.2 == "[]") then none else some s!"{name}: form model predicts {p}, arrived {f.2}"
+
+def judgeInput (id : String) (fs0 : List String) (outs : List String) : String :=
+  let form : Option String := if fs0.length == 9 then fs0[8]? else none
+  let fs := if fs0.length == 9 then fs0.take 8 else fs0
   match fs, outs with
   | [_cfg, _method, _target, _headers, _body, opn, expect, sent], status :: code :: calls :: fields :: _ =>
     match Op.ofName opn with
@@ -172,7 +230,11 @@ def judgeInput (id : String) (fs : List String) (outs : List String) : String :=
       let sent := (decodeList sent).map parseSent
       let fields := (decodeList fields).map (fun s => let (a, b) := splitFirst s '='; (normName a, b))
       let calls := decodeList calls
-      if calls != [s!"backend:{op.backendMethod}:-:-:-"] || status.toNat! / 100 != 2 then
+      -- a POST form is decoded only behind an authentication provider: the call then carries the signer's identity (C07's business)
+      let reached := match form with
+        | none => calls == [s!"backend:{op.backendMethod}:-:-:-"]
+        | some _ => calls.length == 1 && calls.all (fun c => c.startsWith s!"backend:{op.backendMethod}:")
+      if !reached || status.toNat! / 100 != 2 then
         specfail id ("input-rejected:" ++ opn) s!"status={status} code={code}"
       else
         -- spec: every sent member arrives under its own name with the value sent; members not sent are absent
@@ -191,6 +253,14 @@ def judgeInput (id : String) (fs : List String) (outs : List String) : String :=
             | none => some s!"{f.1}: field without binding")
         if !specBad.isEmpty then specfail id ("input-value:" ++ opn) ("; ".intercalate specBad)
         else if !unsentBad.isEmpty then specfail id ("input-unsent:" ++ opn) ("; ".intercalate unsentBad)
+        else if let some form := form then
+          -- model: `S3V.PostForm.decodeForm` over the translated table of `deserialize_http_multipart`
+          let bucketFrag := ((sent.find? fun s => s.loc == "label").map (·.frag)).getD "\"\""
+          let fileLen := ((sent.find? fun s => s.loc == "file-length").map (·.frag.toNat!)).getD 0
+          let bad := formModelBad form bucketFrag fileLen fields
+          if op != formOp then badline id
+          else if !bad.isEmpty then disagree id ("; ".intercalate bad) "fields"
+          else agree id ("form:" ++ opn)
         else
           -- model: the translated binding table predicts, for every field, where its value comes from
           let modelBad := bindings.filterMap (fun b =>
